@@ -207,7 +207,7 @@ def straddle_scenarios(tier):
     """a suspension whose write-out (20 ticks) straddles tick c of the run, for every new constant c of the executor sources
     (periodic housekeeping 'every c ticks'), and for c = 64 otherwise; the run idles until then"""
     from .. import scale as _scale
-    cs = sorted({int(v) for f, v in _scale.new_constants() if "executor/" in f and 32 <= v <= 2_300_000}) or [64]
+    cs = sorted({int(v) for f, v in _scale.new_constants() if "executor/" in f and 32 <= v <= (1_200_000 if tier == "quick" else 2_300_000)}) or [64]
     out = []
     for c in cs[:4]:
         pipes = [dict(prio="B", arrival=max(0, c - 7), alloc=40, cpu=2, parents=[[], [0]],
